@@ -145,6 +145,146 @@ fn ToPrimitive__to_@T@(&self) -> /*@{*/(r: /*}@*/Option<@T@>/*@{*/)/*}@*/
 '''
 
 
+HALF = {8: '0x80', 16: '0x8000', 32: '0x8000_0000', 64: '0x8000_0000_0000_0000', 128: '0x8000_0000_0000_0000_0000_0000_0000_0000'}
+ST = [('i8', 'u8', 8), ('i16', 'u16', 16), ('i32', 'u32', 32), ('i64', 'u64', 64), ('i128', 'u128', 128)]
+
+LEMMAS_S = r"""
+//! proof bn_lemma_numtraits_sor_@T@
+// OR / shift on the signed type act on the bit pattern
+pub proof fn bn_lemma_numtraits_sor_@T@(x: @T@, du: @U@, s: @U@)
+    requires @TB@ > s as int
+    ensures ((x | ((du as @T@) << s)) as @U@) == (x as @U@) | (du << s)
+{
+    assert(((x | ((du as @T@) << s)) as @U@) == (x as @U@) | (du << s)) by (bit_vector) requires s < @TB@@U@;
+}
+//! proof bn_lemma_numtraits_sign_@T@
+pub proof fn bn_lemma_numtraits_sign_@T@(x: @T@)
+    ensures (0 > x) == ((x as @U@) >= @HALF@@U@), x >= 0 ==> (x as @U@) as int == x as int,
+        0 > x ==> (x as @U@) as int == x as int + @U@::MAX as int + 1
+{
+    assert((0 > x) == ((x as @U@) >= @HALF@@U@)) by (bit_vector);
+    assert(x >= 0 ==> (x as @U@) as int == x as int) by (bit_vector);
+    assert(0 > x ==> (x as @U@) as int == x as int + @U@::MAX as int + 1) by (bit_vector);
+}
+//! proof bn_lemma_numtraits_narrow_@T@
+// digit -> narrower signed primitive -> digit round trip (the `small`/`trunc` test of to_int!)
+pub proof fn bn_lemma_numtraits_narrow_@T@(x: $D)
+    ensures (((x as @T@) as $D) == x && (x as @T@) >= 0) ==> (x as @T@) as int == x as int,
+        !(((x as @T@) as $D) == x && (x as @T@) >= 0) ==> x as int > @T@::MAX as int
+{
+    assert((((x as @T@) as $D) == x && (x as @T@) >= 0) ==> (x as @T@) as int == x as int) by (bit_vector);
+    assert(!(((x as @T@) as $D) == x && (x as @T@) >= 0) ==> (x as u128) > @HALFM1@u128) by (bit_vector);
+}
+"""
+
+BU_TO_S = r"""
+//! fn impl(ToPrimitivefor$BUint<N>)::to_@T@ [ext_trait]
+fn ToPrimitive__to_@T@(&self) -> /*@{*/(r: /*}@*/Option<@T@>/*@{*/)/*}@*/
+    /*@{*/ requires bn_wf(N)
+    ensures (r is Some) == (self@ <= @T@::MAX), r matches Some(v) ==> v as int == self@ /*}@*/
+{
+    let mut out = 0;
+    let mut i = 0;
+    /*@{*/ proof {
+        bn_lemma_bits_bp_pow2(1); bn_lemma_bits_bp_pow2(0); bn_lemma_numtraits_pow2_@TB@(); bn_lemma_bits_pow2_db(); lemma2_to64();
+        reveal_with_fuel(bn_val, 2);
+        lemma_pow0(bn_base());
+        assert(bn_bp(0) == 1);
+        assert(bn_val(self.digits@, 0) == 0);
+        assert(bn_val(self.digits@, 1) == bn_val(self.digits@, 0) + self.digits@[0] as int * bn_bp(0));
+        assert(bn_val(self.digits@, 1) == self.digits[0] as int);
+        bn_lemma_numtraits_sign_@T@(0);
+    } /*}@*/
+    if $D::BITS > <@T@>::BITS {
+        let small = self.digits[i] as @T@;
+        let trunc = small as $D;
+        /*@{*/ proof {
+            bn_lemma_numtraits_narrow_@T@(self.digits[0]);
+            bn_lemma_val_split(self.digits@, 1, N as nat);
+            bn_lemma_val_from_nonneg(self.digits@, 1, N as nat);
+            assert(bn_bp(1) * bn_valf(self.digits@, 1, N as nat) >= 0) by (nonlinear_arith) requires bn_bp(1) > 0, bn_valf(self.digits@, 1, N as nat) >= 0;
+        } /*}@*/
+        if self.digits[i] != trunc {
+            return None;
+        }
+        out = small;
+        i = 1;
+    } else {
+        loop
+            /*@{*/ invariant i <= N, i * $DB <= @TB@, $DB <= @TB@, bn_wf(N),
+                (out as @U@) as int == bn_val(self.digits@, i as nat), pow2((i * $DB) as nat) > (out as @U@) as int
+            ensures i == N || i * $DB == @TB@
+            decreases N - i /*}@*/
+        {
+            let shift = i << crate::digit::$D::BIT_SHIFT;
+            /*@{*/ proof {
+                assert(i * $DB <= 65536) by (nonlinear_arith) requires i <= N, N * $DB <= 65536;
+                vstd::bits::lemma_usize_shl_is_mul(i, ${LOGDB}usize);
+            } /*}@*/
+            if i >= N || shift >= <@T@>::BITS as usize {
+                break;
+            }
+            /*@{*/ let ghost out0: @T@ = out; /*}@*/
+            out |= (self.digits[i] as @T@) << shift;
+            /*@{*/ proof {
+                let du = self.digits[i as int] as @U@;
+                assert((self.digits[i as int] as @T@) == (du as @T@));
+                bn_lemma_numtraits_sor_@T@(out0, du, shift as @U@);
+                bn_lemma_bits_pow2_db();
+                bn_lemma_numtraits_or_@U@(out0 as @U@, du, shift as @U@, $DB);
+                bn_lemma_bits_bp_pow2(i as nat); bn_lemma_bits_pow2_db();
+                assert((i * $DB) as nat + $DB == ((i + 1) * $DB) as nat) by (nonlinear_arith) requires i >= 0;
+                assert($DB * i == i * $DB) by (nonlinear_arith);
+            } /*}@*/
+            i += 1;
+        }
+    }
+    /*@{*/ let ghost i0 = i;
+    proof {
+        bn_lemma_numtraits_sign_@T@(out);
+        bn_lemma_bits_bp_pow2(i0 as nat); assert($DB * i0 == i0 * $DB) by (nonlinear_arith);
+        bn_lemma_val_split(self.digits@, i0 as nat, N as nat);
+        bn_lemma_val_from_nonneg(self.digits@, i0 as nat, N as nat);
+        bn_lemma_bp_pos(i0 as nat);
+        assert(bn_bp(i0 as nat) * bn_valf(self.digits@, i0 as nat, N as nat) >= 0) by (nonlinear_arith) requires bn_bp(i0 as nat) > 0, bn_valf(self.digits@, i0 as nat, N as nat) >= 0;
+    } /*}@*/
+    if out < 0 {
+        return None;
+    }
+    while i < N
+        /*@{*/ invariant i0 <= i <= N, 1 <= N, forall|k: int| i0 <= k < i ==> self.digits[k] == 0,
+            i0 < N ==> bn_bp(i0 as nat) > @T@::MAX as int
+        decreases N - i /*}@*/
+    {
+        if self.digits[i] != 0 {
+            /*@{*/ proof {
+                bn_lemma_val_pos(self.digits@, N as nat, i as int);
+                if i > i0 { lemma_pow_increases(bn_base() as nat, i0 as nat, i as nat); }
+            } /*}@*/
+            return None;
+        }
+        i += 1;
+    }
+    /*@{*/ proof { bn_lemma_zero_above(self.digits@, i0 as nat, N as nat); } /*}@*/
+    Some(out)
+}
+"""
+
+BI_TO_U = r"""
+//! fn impl(ToPrimitivefor$BInt<N>)::to_@T@ [ext_trait extcall=self.is_negative:Signed__is_negative,to_@T@:ToPrimitive__to_@T@]
+fn ToPrimitive__to_@T@(&self) -> /*@{*/(r: /*}@*/Option<@T@>/*@{*/)/*}@*/
+    /*@{*/ requires bn_wf(N)
+    ensures (r is Some) == (0 <= self@ && self@ <= @T@::MAX), r matches Some(v) ==> v as int == self@ /*}@*/
+{
+    /*@{*/ proof { bn_lemma_sval_twos(self.bits.digits@, N as nat); } /*}@*/
+    if self.Signed__is_negative() {
+        None
+    } else {
+        self.bits.ToPrimitive__to_@T@()
+    }
+}
+"""
+
 def inst(t, T, TB):
     return t.replace('@TB@', str(TB)).replace('@T@', T).replace('@HALFM1@', HALFM1[TB])
 
@@ -160,3 +300,12 @@ for T, TB in UT:
     if only and T not in only:
         continue
     sys.stdout.write(inst(BU_TO_U, T, TB).lstrip('\n'))
+for T, TB in UT:
+    if only and T not in only:
+        continue
+    sys.stdout.write(inst(BI_TO_U, T, TB).lstrip('\n'))
+for T, U, TB in ST:
+    if only and T not in only:
+        continue
+    sys.stdout.write(inst(LEMMAS_S, T, TB).replace('@U@', U).replace('@HALF@', HALF[TB]).lstrip('\n'))
+    sys.stdout.write(inst(BU_TO_S, T, TB).replace('@U@', U).lstrip('\n'))
